@@ -197,8 +197,41 @@ func main() {
 				}
 				r.Bound(fmt.Sprintf("alphabet_%d", d.vals), fmt.Sprintf("all %d x %d pairs of sequences up to length %d", len(seqs), len(seqs), d.maxLen))
 			}
+			// longer structured inputs (thresholds, buffer sizes, long common runs)
+			long := mc.LongSeqs(3, mc.Pick(r, []int{12, 17, 33, 64, 65, 130}, []int{12, 17, 33, 64, 65, 130, 257, 400}))
+			long = append(long, mc.LongSeqs(2, []int{16, 40, 100})...)
+			var nlong int64
+			mc.ParallelFor(len(long), r.Workers, func(i int) {
+				for j := range long {
+					if len(long[i])*len(long[j]) > 70000 {
+						continue
+					}
+					t := trace{long[i], long[j]}
+					if f := check(t); f != nil {
+						f.Msg = fmt.Sprintf("long inputs (%d and %d elements): %.300s", len(t.L), len(t.R), f.Msg)
+						r.Violation(mc.Case{Harness: "editscript", Trace: mc.J(t), Msg: f.Msg})
+					}
+					atomic.AddInt64(&nlong, 1)
+				}
+				// a near-copy: one element removed / inserted / changed in the middle
+				a := long[i]
+				if len(a) >= 4 {
+					m := len(a) / 2
+					for _, b := range [][]int{append(append([]int{}, a[:m]...), a[m+1:]...), append(append(append([]int{}, a[:m]...), 1), a[m:]...), append(append(append([]int{}, a[:m]...), (a[m]+1)%3), a[m+1:]...)} {
+						for _, t := range []trace{{a, b}, {b, a}} {
+							if f := check(t); f != nil {
+								f.Msg = fmt.Sprintf("long near-copies (%d and %d elements): %.300s", len(t.L), len(t.R), f.Msg)
+								r.Violation(mc.Case{Harness: "editscript", Trace: mc.J(t), Msg: f.Msg})
+							}
+							atomic.AddInt64(&nlong, 1)
+						}
+					}
+				}
+			})
+			r.Count("long_structured_pairs", nlong)
+			evals += nlong
 			r.AddEval(evals, evals, evals, ambiguous)
-			r.Rule("every ordered pair of sequences over each small alphabet up to its length bound; non-trivial = pairs with more than one optimal alignment (counted by the DP)")
+			r.Rule("every ordered pair of sequences over each small alphabet up to its length bound, plus all pairs of a fixed family of longer structured sequences (lengths 12..130/400) and their near-copies; non-trivial = pairs with more than one optimal alignment (counted by the DP)")
 			r.Sample(trace{[]int{0, 1, 0, 1}, []int{1, 0, 1, 0, 0}})
 		},
 		Replay: func(c mc.Case) *mc.Failure {
